@@ -1,6 +1,8 @@
 (* Load.v — mirrors src/data.rs: the parsed YAML documents (after serde), the file work-list
    (subdirs / includes), convert_context, init_module / convert_module, defaults, and the
-   order in which the bag is filled. Downloads and imports are not modelled. Definitions only. *)
+   order in which the bag is filled. Local `imports:` (data/import/local.rs without symlink) are
+   modelled: the imported directory's lazefile, its import root, ${root} and the names of unnamed
+   modules; git and command imports are not. Definitions only. *)
 From Coq Require Import Ascii String.
 From Coq Require Import List Arith Bool NArith.
 Import ListNotations.
@@ -48,12 +50,14 @@ Record ydoc := {
   d_contexts : option (list yctx); d_builders : option (list yctx);
   d_modules : option (option (list ymod)); d_apps : option (option (list ymod));
   d_includes : option (list str); d_subdirs : option (list str);
-  d_defaults_module : option ymod; d_defaults_app : option ymod }.
+  d_defaults_module : option ymod; d_defaults_app : option ymod;
+  d_imports : option (list str) }.       (* imports: [{path: p}] — local imports, by directory *)
 
 Definition ytree := list (str * list ydoc).       (* file name -> its documents *)
 
 (* ---------- errors ---------- *)
 Definition e_nofile := EOther (S_ "file-not-found").
+Definition e_noimport := EOther (S_ "no-lazefile-in-import").
 Definition e_early := EOther (S_ "early-expansion").
 
 (* ---------- dependency strings ---------- *)
@@ -133,10 +137,19 @@ Definition module_from (defaults : module) (name : str) (context : option str) :
 
 Record minit := { mi_m : module }.
 
+(* an unnamed module is named after its directory, relative to the import root inside an import
+   (after the C15 fix 8d614e3: a file included from outside the import root keeps the whole
+   directory; the code before unwrapped the StripPrefixError) *)
 Definition init_module (name : option str) (context : option str) (is_binary : bool) (filename : str)
-           (defaults : option module) : module :=
+           (root : option str) (defaults : option module) : module :=
   let relpath := parent filename in
-  let nm := match name with Some n => n | None => relpath end in
+  let nm := match name with
+            | Some n => n
+            | None => match root with
+                      | Some r => match strip_prefix relpath r with Some x => x | None => relpath end
+                      | None => relpath
+                      end
+            end in
   let m0 := match defaults with Some d => module_from d nm context | None => module_new nm context end in
   {| m_name := m_name m0; m_context_name := m_context_name m0; m_selects := m_selects m0;
      m_imports := m_imports m0; m_provides := m_provides m0; m_conflicts := m_conflicts m0;
@@ -164,9 +177,11 @@ Definition name_ok (y : ymod) : res unit :=
   | None => Ok tt
   end.
 
+Definition root_value (root : option str) : str := match root with Some r => r | None => [ch_dot] end.
+
 Definition convert_module (build_dir : str) (y : ymod) (context : option str) (is_binary : bool) (filename : str)
-           (defaults : option module) : res module :=
-  let m := init_module (ym_name y) context is_binary filename defaults in
+           (root : option str) (defaults : option module) : res module :=
+  let m := init_module (ym_name y) context is_binary filename root defaults in
   rbind (name_ok y) (fun _ =>
   rbind (deps_of_specs (odflt [] (ym_selects y))) (fun sel1 =>
   rbind (rmapM dependency_from_string (odflt [] (ym_uses y))) (fun uses =>
@@ -202,7 +217,7 @@ Definition convert_module (build_dir : str) (y : ymod) (context : option str) (i
                    | None => m_build_dep_files m end in
   let srcdir := match ym_srcdir y with Some s => s | None => srcdir0 end in
   let early := env_insert (S_ "srcdir") (Single srcdir)
-                 (env_insert (S_ "root") (Single [ch_dot])
+                 (env_insert (S_ "root") (Single (root_value root))
                     (env_insert (S_ "relpath") (Single relpath) (m_env_early m))) in
   let env_local1 := merge env_local early in
   let wrap (x : res env) : res env := match x with Err _ => Err e_early | o => o end in
@@ -231,12 +246,12 @@ Definition convert_module (build_dir : str) (y : ymod) (context : option str) (i
         m_download := ym_download y |})))))))).
 
 (* convert_context, data.rs:463-620: the context and its context module *)
-Definition convert_context (y : yctx) (is_builder : bool) (filename : str) : res (context * module) :=
+Definition convert_context (y : yctx) (is_builder : bool) (filename : str) (root : option str) : res (context * module) :=
   let name := yc_name y in
   let is_default := str_eqb name (S_ "default") in
   let parent := odflt (S_ "default") (yc_parent y) in
   let relpath := relpath_of filename in
-  let early := env_insert (S_ "root") (Single [ch_dot]) (env_insert (S_ "relpath") (Single relpath) []) in
+  let early := env_insert (S_ "root") (Single (root_value root)) (env_insert (S_ "relpath") (Single relpath) []) in
   rbind (match yc_tasks y with
          | Some ts => rmap Some (match convert_tasks ts early with Err _ => Err e_early | o => o end)
          | None => Ok None end) (fun tasks =>
@@ -252,7 +267,7 @@ Definition convert_context (y : yctx) (is_builder : bool) (filename : str) : res
               c_env := env1; c_disable := yc_disables y; c_provided := None;
               c_var_options := yc_var_options y; c_tasks := tasks; c_env_early := early;
               c_is_builder := is_builder; c_defined_in := Some filename |} in
-  let m0 := init_module (Some (ctx_module_name name)) (Some name) false filename None in
+  let m0 := init_module (Some (ctx_module_name name)) (Some name) false filename root None in
   let provides := match yc_provides y, yc_provides_unique y with
                   | Some p, Some u => Some (p ++ u) | Some p, None => Some p
                   | None, Some u => Some u | None, None => None end in
@@ -272,16 +287,64 @@ Definition convert_context (y : yctx) (is_builder : bool) (filename : str) : res
 
 (* ---------- the file work-list, data.rs:406-461 ---------- *)
 (* a loaded document with its bookkeeping *)
-Record ldoc := { ld_doc : ydoc; ld_file : str; ld_idx : nat; ld_included_by : option nat }.
+Record ldoc := { ld_doc : ydoc; ld_file : str; ld_idx : nat; ld_included_by : option nat; ld_root : option str }.
 
-Definition finc := (str * option nat)%type.      (* FileInclude: file name, including document *)
-(* after the C15/C17 fix the work list is keyed by the file name only: a file is loaded once *)
-Definition finc_eqb (a b : finc) : bool := str_eqb (fst a) (fst b).
+(* FileInclude: file name, (including document, import root) *)
+Definition finc := (str * (option nat * option str))%type.
+Definition finc_by (i : finc) : option nat := fst (snd i).
+Definition finc_root (i : finc) : option str := snd (snd i).
+Definition fkey := (str * option str)%type.
+Definition finc_key (i : finc) : fkey := (fst i, finc_root i).
+Definition ostr_eqb (a b : option str) : bool :=
+  match a, b with None, None => true | Some x, Some y => str_eqb x y | _, _ => false end.
+(* after the C15/C17 fix the work list is keyed by the file name and the import root: a file is
+   loaded once (per import root), whoever lists it *)
+Definition finc_eqb (a b : finc) : bool := str_eqb (fst a) (fst b) && ostr_eqb (finc_root a) (finc_root b).
 Definition finc_insert (x : finc) (l : list finc) : list finc := if existsb (finc_eqb x) l then l else l ++ [x].
 
 Definition path_join (a b : str) : str := path_push a b.
 
-(* fuel-bounded work-list; Fuel = more files than the bound (e.g. a self-including file) *)
+(* data/import.rs get_lazefile: the first of these names that exists in the imported directory *)
+Definition lazefile_names : list str := [S_ "laze-lib.yml"; S_ "laze.yml"; S_ "laze-project.yml"].
+Definition file_exists (t : ytree) (f : str) : bool := match alookup f t with Some _ => true | None => false end.
+Definition get_lazefile (t : ytree) (dir : str) : option str :=
+  find (file_exists t) (map (path_join dir) lazefile_names).
+(* the candidates that were looked for before the chosen one: what is loaded depends on their
+   absence (import::preferred_over, fix d85df0c) *)
+Fixpoint take_until_exists (t : ytree) (l : list str) : list str :=
+  match l with
+  | [] => []
+  | f :: r => if file_exists t f then [] else f :: take_until_exists t r
+  end.
+Definition preferred_over (t : ytree) (dir : str) : list str :=
+  match get_lazefile t dir with
+  | Some _ => take_until_exists t (map (path_join dir) lazefile_names)
+  | None => []
+  end.
+
+Definition new_docs (inc : finc) (start : nat) (ds : list ydoc) : list ldoc :=
+  map (fun id => {| ld_doc := snd id; ld_file := fst inc; ld_idx := start + fst id;
+                    ld_included_by := finc_by inc; ld_root := finc_root inc |})
+      (combine (seq 0 (length ds)) ds).
+
+(* what one document adds to the work list: its subdirs, then its imports, then its includes;
+   subdirs and includes stay in the import root of the file, an import starts a new one *)
+Definition step_doc (t : ytree) (inc : finc) (p : list finc) (d : ldoc) : res (list finc) :=
+  let dir := parent (fst inc) in
+  let p1 := fold_left (fun p s => finc_insert (path_join (path_join dir s) (S_ "laze.yml"), (Some (ld_idx d), finc_root inc)) p)
+                      (odflt [] (d_subdirs (ld_doc d))) p in
+  rbind (fold_left (fun acc s => rbind acc (fun p =>
+            match get_lazefile t s with
+            | Some f => Ok (finc_insert (f, (Some (ld_idx d), Some (parent f))) p)
+            | None => Err e_noimport
+            end)) (odflt [] (d_imports (ld_doc d))) (Ok p1)) (fun p2 =>
+  Ok (fold_left (fun p s => finc_insert (path_join dir s, (Some (ld_idx d), finc_root inc)) p)
+                (odflt [] (d_includes (ld_doc d))) p2)).
+
+Definition step_pending (t : ytree) (inc : finc) (start : nat) (ds : list ydoc) (pending : list finc) : res (list finc) :=
+  fold_left (fun acc d => rbind acc (fun p => step_doc t inc p d)) (new_docs inc start ds) (Ok pending).
+
+(* fuel-bounded work-list; Fuel = more steps than the bound (never: proofs/LoadTotal.v) *)
 Fixpoint load_files (fuel : nat) (t : ytree) (pending : list finc) (pos : nat) (docs : list ldoc) : res (list ldoc * list finc) :=
   match fuel with
   | O => Fuel
@@ -292,22 +355,22 @@ Fixpoint load_files (fuel : nat) (t : ytree) (pending : list finc) (pos : nat) (
           match alookup (fst inc) t with
           | None => Err e_nofile
           | Some ds =>
-              let start := length docs in
-              let new := map (fun id => {| ld_doc := snd id; ld_file := fst inc; ld_idx := start + fst id;
-                                           ld_included_by := snd inc |})
-                             (combine (seq 0 (length ds)) ds) in
-              let dir := parent (fst inc) in
-              let pending1 :=
-                  fold_left (fun p d =>
-                     let p1 := fold_left (fun p s => finc_insert (path_join (path_join dir s) (S_ "laze.yml"), Some (ld_idx d)) p)
-                                         (odflt [] (d_subdirs (ld_doc d))) p in
-                     fold_left (fun p s => finc_insert (path_join dir s, Some (ld_idx d)) p)
-                               (odflt [] (d_includes (ld_doc d))) p1)
-                  new pending in
-              load_files f t pending1 (S pos) (docs ++ new)
+              match step_pending t inc (length docs) ds pending with
+              | Ok pending1 => load_files f t pending1 (S pos) (docs ++ new_docs inc (length docs) ds)
+              | Err e => Err e
+              | Panic n => Panic n
+              | Fuel => Fuel
+              end
           end
       end
   end.
+
+(* at most one step per (file, import root); roots are directories of files of the tree *)
+Definition load_fuel (t : ytree) : nat := S (S (length t * S (length t))).
+
+(* the files whose absence the loaded documents depended on *)
+Definition absent_of (t : ytree) (docs : list ldoc) : list str :=
+  flat_map (fun d => flat_map (preferred_over t) (odflt [] (d_imports (ld_doc d)))) docs.
 
 (* defaults, data.rs:925-985 (after the C15 fix: a context list in defaults and a failing
    conversion are errors; the pinned code panicked) *)
@@ -323,7 +386,7 @@ Definition get_defaults (build_dir : str) (d : ldoc) (dmap : list (nat * module)
       | CList _ => Err e_defaults
       | c =>
           let ctx := match c with CSingle s => Some s | _ => None end in
-          match convert_module build_dir y ctx key_is_app (ld_file d) inherited with
+          match convert_module build_dir y ctx key_is_app (ld_file d) (ld_root d) inherited with
           | Ok m => Ok (Some m)
           | Err _ => Err e_defaults
           | Panic n => Panic n
@@ -339,17 +402,17 @@ Definition contexts_of (c : ctxspec) : list (option str) :=
 Definition add_modules (build_dir : str) (b : bag) (d : ldoc) (mods : list ymod) (is_binary : bool) (defaults : option module) : res bag :=
   fold_left (fun acc y => rbind acc (fun b =>
      fold_left (fun acc c => rbind acc (fun b =>
-        rbind (convert_module build_dir y c is_binary (ld_file d) defaults) (add_module b)))
+        rbind (convert_module build_dir y c is_binary (ld_file d) (ld_root d) defaults) (add_module b)))
         (contexts_of (ym_context y)) (Ok b))) mods (Ok b).
 
 (* load(), data.rs:395-1067: project file -> finalized bag with merged provides *)
 Definition load (t : ytree) (project_file : str) (build_dir : str) : res bag :=
-  rbind (load_files (S (S (length t * 8))) t [(project_file, None)] 0 []) (fun '(docs, _) =>
+  rbind (load_files (load_fuel t) t [(project_file, (None, None))] 0 []) (fun '(docs, _) =>
   (* contexts and builders of all documents, contexts before builders within a document *)
   rbind (fold_left (fun acc d => rbind acc (fun '(b, cms) =>
            fold_left (fun acc lb => rbind acc (fun '(b, cms) =>
               fold_left (fun acc y => rbind acc (fun '(b, cms) =>
-                 rbind (convert_context y (snd lb || yc_is_builder y) (ld_file d)) (fun '(c, m) =>
+                 rbind (convert_context y (snd lb || yc_is_builder y) (ld_file d) (ld_root d)) (fun '(c, m) =>
                  rbind (add_context b c) (fun b' => Ok (b', cms ++ [m])))))
                 (odflt [] (fst lb)) (Ok (b, cms))))
              [(d_contexts (ld_doc d), false); (d_builders (ld_doc d), true)] (Ok (b, cms))))
